@@ -516,6 +516,12 @@ class RegFuture(BaseFuture):
 
         self.builder.subrt_add_pending_commands(commands)
 
+        # The new value must reach the host: return the register at the end of this
+        # subroutine as well (it may have been created, and returned, in an earlier one)
+        mem_mgr = self.builder._mem_mgr
+        if self.reg not in mem_mgr.get_registers_to_return():
+            mem_mgr.add_register_to_return(self.reg)
+
 
 class Array:
     """Wrapper around an array in Shared Memory.
